@@ -1448,10 +1448,64 @@ def check_C01(ctx):
     ctx.assumptions = ["fairness of the Go scheduler", "a hang is a wait of the harness on the library that exceeds 30 s"]
     sigs = set()
     frames_check(ctx, {"HM_END", "HM_STATE", "CT_DONE", "CT_EXIT", "BAR_EXIT", "CT_RENDERBEGIN", "HM_ITERREQ"}, M.c01_monitor, 300, 8000,
-                 LIFE_DEPS | {"Props/C01.v"}, fams=ALLFAMS)
+                 LIFE_DEPS | WG_DEPS | {"Props/C01.v"}, fams=ALLFAMS)
     if ctx.harness:
         late_check(ctx, False, sigs)
+        wg_check(ctx, sigs)
 
+
+
+# ---------------------------------------------------------------- the wait group Progress.Wait blocks on (C01)
+WG_DEPS = {"WaitGroup.v", "WaitGroupProofs.v"}
+
+
+def wg_check(ctx, sigs):
+    """differential: after every Add / Done / Wait call on bar_wait_group.go, the set of waiters that have returned"""
+    runs = []
+    if ctx.replay:
+        rp = json.load(open(ctx.replay))
+        if rp.get("family") != "wg":
+            return False
+        sc = write_script(ctx, "replay_wg.txt", rp["case"])
+        runs.append(ctx.run_family("wg", 0, extra=sc, tag=".replay"))
+    elif ctx.tier == "quick":
+        runs.append(ctx.run_family("wg", 150))
+    else:
+        for i in range(4):
+            runs.append(ctx.run_family("wg", 1500, seed=ctx.seed * 1000 + i))
+    found = False
+    for run in runs:
+        if run["rc"] != 0:
+            rep = {"family": "wg", "run_seed": run["seed"], "n": run["n"]}
+            mk = re.search(r"case (\d+): hang", run["log"])
+            try:
+                allc = group_cases(read_lines(os.path.join(run["dir"], "cases.txt")))
+                if mk and int(mk.group(1)) in allc:
+                    rep["k"], rep["case"] = int(mk.group(1)), allc[int(mk.group(1))]
+            except Exception:
+                pass
+            ctx.add_violation("wait group run failed (a waiter not released at count zero, or a panic): " + run["log"][-1500:],
+                              "wg-run-failed", rep)
+            found = True
+            continue
+        impl = group_obs(read_lines(os.path.join(run["dir"], "impl.txt")))
+        model = group_obs(read_lines(os.path.join(run["dir"], "model.txt")))
+        cases = group_cases(read_lines(os.path.join(run["dir"], "cases.txt")))
+        for k in sorted(cases):
+            ctx.cov["evaluations"] += 1
+            ctx.cov["traces_validated_against_impl"] += 1
+            ctx.distinct(("wg",) + tuple(cases[k][1:]))
+            if impl.get(k, []) != model.get(k, []):
+                a, b = impl.get(k, []), model.get(k, [])
+                first = next((i for i in range(min(len(a), len(b))) if a[i] != b[i]), min(len(a), len(b)))
+                sig = "wg-mismatch"
+                if sig not in sigs:
+                    sigs.add(sig)
+                    ctx.add_violation("wait group: implementation and model differ at step %d: impl %s / model %s"
+                                      % (first, a[first] if first < len(a) else None, b[first] if first < len(b) else None), sig,
+                                      {"family": "wg", "run_seed": run["seed"], "n": run["n"], "k": k, "case": cases[k]})
+                found = True
+    return found
 
 
 # ---------------------------------------------------------------- priority queue (C06, C02)
